@@ -29,7 +29,8 @@ try:
             applied.append(i)
         else:
             res[i]["apply_error"] = out[-300:]
-    rc, out = sh("cargo nextest run --workspace --no-fail-fast --tool-config-file pb:/w/lib/nextest.toml --profile pb --test-threads 8 --offline", cwd=wt)
+    skip_suite = os.environ.get("CONFIRM_SKIP_SUITE") == "1"
+    rc, out = (0, "") if skip_suite else sh("cargo nextest run --workspace --no-fail-fast --tool-config-file pb:/w/lib/nextest.toml --profile pb --test-threads 8 --offline", cwd=wt)
     m = re.search(r"(\d+) tests run: (\d+) passed(?: \((\d+) slow\))?(?:, (\d+) failed)?", out)
     suite = m.group(0) if m else out[-400:]
     failed = sorted(set(re.findall(r"^\s+FAIL \[.*?\] \(\s*\d+/\d+\) (\S+) (\S+)", out, re.M)))
@@ -44,7 +45,14 @@ try:
         if not ok:
             still.append(f"{crate} {test}")
     compiles = "could not compile" not in out
-    for i in applied:
+    if skip_suite:
+        for i in ids:
+            try:
+                old = json.load(open(os.path.join(V, "seeded", i, "confirm.json")))
+                res[i].update({k: old[k] for k in ("suite_with_group", "failed_in_full_run", "failed_when_run_alone", "compiles", "suite_ok", "group") if k in old})
+            except Exception:
+                pass
+    for i in ([] if skip_suite else applied):
         res[i].update({"suite_with_group": suite, "failed_in_full_run": [" ".join(f) for f in failed], "failed_when_run_alone": still,
                        "compiles": compiles, "suite_ok": bool(m) and compiles and not still})
     for i in ids:
@@ -52,13 +60,17 @@ try:
         dd = f"/tmp/confdemo_{i}"
         shutil.rmtree(dd, ignore_errors=True)
         shutil.copytree(d, dd)
-        sh(f"git -C {wt} checkout -- . && git -C {wt} clean -fdq -e target")
+        sh(f"git -C {wt} checkout -- . && git -C {wt} clean -fdq -e target -e .ergpath")
         rc, out = sh(f"git -C {wt} apply {d}/patch.diff")
         res[i]["applies"] = rc == 0
         if os.path.exists(os.path.join(dd, "demo.sh")):
-            rcw, ow = sh(f"sh {dd}/demo.sh {wt}", cwd=dd, timeout=3600)
-            sh(f"git -C {wt} checkout -- . && git -C {wt} clean -fdq -e target")
-            rco, oo = sh(f"sh {dd}/demo.sh {wt}", cwd=dd, timeout=3600)
+            # the demonstrations use the worktree's own build (target/debug/erg, runtime library under <wt>/.ergpath)
+            prep = (f"cargo build --offline && mkdir -p {wt}/.ergpath && rsync -a --delete {wt}/crates/erg_compiler/lib {wt}/.ergpath/")
+            sh(prep, cwd=wt, timeout=3600)
+            rcw, ow = sh(f"ERG_PATH={wt}/.ergpath sh {dd}/demo.sh {wt}", cwd=dd, timeout=3600)
+            sh(f"git -C {wt} checkout -- . && git -C {wt} clean -fdq -e target -e .ergpath")
+            sh(prep, cwd=wt, timeout=3600)
+            rco, oo = sh(f"ERG_PATH={wt}/.ergpath sh {dd}/demo.sh {wt}", cwd=dd, timeout=3600)
             res[i].update({"demo_with_change_rc": rcw, "demo_with_change_tail": ow[-500:], "demo_without_change_rc": rco,
                            "demo_without_change_tail": oo[-300:], "demo_flips": rcw != 0 and rco == 0})
         else:
